@@ -61,6 +61,7 @@ Proof.
   rewrite (lint_reports_all ZNum (mkw book_good log6) (b "log.yaml") log6 false).
   - rewrite ex_log6_errors. vm_compute. reflexivity.
   - discriminate.
+  - intro HH; vm_compute in HH; discriminate HH.
   - vm_compute. reflexivity.
   - vm_compute. reflexivity.
   - reflexivity.
@@ -76,6 +77,7 @@ Proof.
   rewrite (lint_output_lines ZNum (mkw book_good log6) (b "log.yaml") log6 false).
   - rewrite ex_log6_errors. vm_compute. reflexivity.
   - discriminate.
+  - intro HH; vm_compute in HH; discriminate HH.
   - vm_compute. reflexivity.
   - vm_compute. reflexivity.
   - reflexivity.
@@ -89,6 +91,7 @@ Proof.
   rewrite (lint_reports_all ZNum (mkw book_good log6) (b "food.yaml") book_good false).
   - vm_compute. reflexivity.
   - discriminate.
+  - intro HH; vm_compute in HH; discriminate HH.
   - vm_compute. reflexivity.
   - vm_compute. reflexivity.
   - reflexivity.
@@ -101,6 +104,7 @@ Proof.
   rewrite (lint_reports_all ZNum (mkw book_good log6) (b "food.yaml") book_good true).
   - vm_compute. reflexivity.
   - discriminate.
+  - intro HH; vm_compute in HH; discriminate HH.
   - vm_compute. reflexivity.
   - vm_compute. reflexivity.
   - reflexivity.
@@ -133,6 +137,7 @@ Proof.
   rewrite (run_book_error_db_log ZNum wb (inv c) op book_bad eb5 [eb7] Hl Hc).
   - reflexivity.
   - rewrite Hdb. discriminate.
+  - rewrite Hdb. intro HH; vm_compute in HH; discriminate HH.
   - rewrite Hdb. vm_compute. reflexivity.
   - rewrite Hdb. vm_compute. reflexivity.
   - rewrite Hlog. vm_compute. discriminate.
@@ -148,6 +153,7 @@ Proof.
   - reflexivity.
   - discriminate.
   - rewrite Hdb. discriminate.
+  - rewrite Hdb. intro HH; vm_compute in HH; discriminate HH.
   - rewrite Hdb. vm_compute. reflexivity.
   - rewrite Hdb. vm_compute. reflexivity.
   - exact ex_book_errors.
@@ -164,6 +170,7 @@ Proof.
   rewrite (run_book_error_csv_db ZNum wb _ op book_bad [ENode broth] eb5 post Hl eq_refl).
   - vm_compute. reflexivity.
   - rewrite Hdb. discriminate.
+  - rewrite Hdb. intro HH; vm_compute in HH; discriminate HH.
   - rewrite Hdb. vm_compute. reflexivity.
   - rewrite Hdb. vm_compute. reflexivity.
   - reflexivity.
@@ -171,23 +178,29 @@ Proof.
   - reflexivity.
 Qed.
 
-(** stats with a clean log and the malformed book *)
+(** stats with a clean log (its headings are dates: fix F27) and the malformed book *)
+Definition log_clean : bytes := lines [b "2024/01/01"; b "  soup 2"; b "2024/01/02"; b "  soup 1"].
+
 Example ex_stats_book :
-  run ZNum (mkw book_bad book_good) (inv CStats)
+  run ZNum (mkw book_bad log_clean) (inv CStats)
   = {| out_stdout := []; out_status := Failed (EParse (b "bad syntax on line 5, ""  water"".")) |}.
 Proof.
-  assert (Hl : exists op, load (mkw book_bad book_good) (inv CStats) = inr op
-                          /\ op_db op = b "food.yaml" /\ op_log op = b "log.yaml")
-    by (eexists; split; [vm_compute; reflexivity|split; reflexivity]).
-  destruct Hl as (op & Hl & Hdb & Hlog).
-  rewrite (run_book_error_stats ZNum _ _ op book_good book_bad eb5 [eb7] Hl eq_refl).
+  assert (Hl : exists op, load (mkw book_bad log_clean) (inv CStats) = inr op
+                          /\ op_db op = b "food.yaml" /\ op_log op = b "log.yaml"
+                          /\ tokenize default_fmt = Some (rc_date (op_rc op)))
+    by (eexists; split; [vm_compute; reflexivity|split; [|split]; reflexivity]).
+  destruct Hl as (op & Hl & Hdb & Hlog & Htk).
+  rewrite (run_book_error_stats ZNum _ _ op log_clean book_bad eb5 [eb7] Hl eq_refl).
   - reflexivity.
   - rewrite Hlog. discriminate.
+  - rewrite Hlog. intro HH; vm_compute in HH; discriminate HH.
   - rewrite Hlog. vm_compute. reflexivity.
   - rewrite Hlog. vm_compute. reflexivity.
   - vm_compute. reflexivity.
   - unfold readable. vm_compute. reflexivity.
+  - remember (rc_date (op_rc op)) as tk eqn:Etk in *. vm_compute in Htk. injection Htk as Htk. rewrite <- Htk. vm_compute. repeat constructor; discriminate.
   - rewrite Hdb. discriminate.
+  - rewrite Hdb. intro HH; vm_compute in HH; discriminate HH.
   - rewrite Hdb. vm_compute. reflexivity.
   - rewrite Hdb. vm_compute. reflexivity.
   - exact ex_book_errors.
@@ -222,6 +235,7 @@ Proof.
   - rewrite Hdb. vm_compute. reflexivity.
   - exact Hres.
   - rewrite Hlog. discriminate.
+  - rewrite Hlog. intro HH; vm_compute in HH; discriminate HH.
   - rewrite Hlog. vm_compute. reflexivity.
   - rewrite Hlog. vm_compute. reflexivity.
   - reflexivity.
@@ -239,6 +253,7 @@ Proof.
   rewrite (run_log_error_log_only ZNum wl (inv c) op log8 [ENode day1] el6 post Hl Hc).
   - reflexivity.
   - rewrite Hlog. discriminate.
+  - rewrite Hlog. intro HH; vm_compute in HH; discriminate HH.
   - rewrite Hlog. vm_compute. reflexivity.
   - rewrite Hlog. vm_compute. reflexivity.
   - reflexivity.
